@@ -100,6 +100,17 @@ def run(tier):
     vlib.run_vh_parallel(jobs, timeout=7200)
     row_sets = [vlib.read_ndjson(j[2]) for j in jobs]
     evs = [r for rows in row_sets for r in rows if r["ev"] == "Zkir"]
+    # the recorded open finding K1 (ill-typed programs: the off-circuit evaluator refuses, building the circuit panics) fails
+    # the same way for every such program and would use up the cap on rejected runs: while it is open, six of those events
+    # are validated (and reported as the known finding) and the rest are only counted
+    kf = json.load(open(os.path.join(vlib.ROOT, "known_findings.json")))["findings"]
+    k1 = next((f["key"] for f in kf if f["property"] == "C18" and f["status"] == "open" and f.get("key", {}).get("circ") == "panic"), None)
+    is_k1 = lambda r: k1 is not None and r["ev"] == "Zkir" and all(r.get(k) == v for k, v in k1.items())
+    k1_rows = [r for rows in row_sets for r in rows if is_k1(r)]
+    heads = [r for r in row_sets[0] if r["ev"] == "header"][:1]
+    row_sets = [[r for r in rows if not is_k1(r)] for rows in row_sets]
+    if k1_rows:
+        row_sets.append(heads + k1_rows[:6])
     good, rejected, st = vlib.validate_many(row_sets, "Zkir_Trace.tla", "Zkir_Trace.cfg", "C18", "zkir",
                                             max_rejects=40, start_ev="Zkir")
     sc_by_id = {s["id"]: s for s in scen}
@@ -132,7 +143,7 @@ def run(tier):
     rep.coverage.update({
         "states": mc["distinct"], "transitions": mc["generated"],
         "traces_validated_against_impl": len(good),
-        "programs_run": len(evs),
+        "programs_run": len(evs), "programs_skipped_as_known_finding": max(0, len(k1_rows) - 6),
         "simulated_programs": len(uniq),
         "outcomes": {"/".join(map(str, k)): v for k, v in sorted(cnt.items(), key=str)},
         "trace_actions": st["actions"],
